@@ -183,6 +183,18 @@ func (f *Font) GlyphByName(name string) *Glyph {
 
 // EncodingNames returns the 256 glyph names the encoding assigns (before
 // absent glyphs are mapped to .notdef), or nil if the font has no encoding.
+// EmptyName stands for a glyph whose name is the empty name `/` ("" itself
+// means "no entry" in Enc).
+const EmptyName = "\x00"
+
+// PSName returns the name as it is written in the file.
+func PSName(n string) string {
+	if n == EmptyName {
+		return ""
+	}
+	return n
+}
+
 func (f *Font) EncodingNames() []string {
 	switch f.EncKind {
 	case EncStandard:
@@ -195,7 +207,7 @@ func (f *Font) EncodingNames() []string {
 			if n == "" {
 				n = ".notdef"
 			}
-			res[i] = n
+			res[i] = PSName(n)
 		}
 		return res
 	}
